@@ -108,8 +108,7 @@ def run_case(case_id, pre_abs, msg_abs, seed, keep_xml=False):
         return ev
     before = str(ro)
     res, status, warns, err = add(ro, m)
-    if cls_seen != msg_abs["cls"] and status == "ok":
-        status = "misclassified:" + cls_seen
+    # (a message classified as another class than its shape says is C08's business: the step is judged as it went)
     target = res if (status == "ok" and isinstance(res, RunningOrder)) else ro
     if status == "ok" and not isinstance(res, RunningOrder):
         status = "crash:BadReturn"
